@@ -96,7 +96,7 @@ def oracle(rng, tier):
 
 def correspondence(tier, seed):
     import corr_numeric
-    budget = {'solver': 20, 'curve': 10}
+    budget = {'solver': 20, 'curve': 10, 'nicurve': 10}
     if tier == 'thorough':
         budget = {k: v * 12 for k, v in budget.items()}
     return corr_numeric.run(seed, budget, nmax=30 if tier == 'quick' else 200, tag='C19')
